@@ -36,6 +36,14 @@ var c08Bindings = []binding{
 	{"st_skip", "stream", databasev1.IndexRule_TYPE_SKIPPING},
 	{"m_none", "measure", databasev1.IndexRule_TYPE_UNSPECIFIED},
 	{"m_inv", "measure", databasev1.IndexRule_TYPE_INVERTED},
+	{"st_mix", "stream", databasev1.IndexRule_TYPE_INVERTED},
+}
+
+// mixedRules: a binding whose tags are covered by different kinds of index (or by none), so that the two sides
+// of an AND/OR are answered by different mechanisms (inverted element filter, skipping block filter, row filter).
+var mixedRules = map[string]map[string]databasev1.IndexRule_Type{
+	"st_mix": {"svc": databasev1.IndexRule_TYPE_INVERTED, "n": databasev1.IndexRule_TYPE_UNSPECIFIED, "dur": databasev1.IndexRule_TYPE_SKIPPING,
+		"labels": databasev1.IndexRule_TYPE_SKIPPING, "codes": databasev1.IndexRule_TYPE_INVERTED},
 }
 
 // setupQueryWorld creates the sibling resources and writes the same rows into each.
@@ -62,7 +70,14 @@ func setupQueryWorld(t *testing.T, sv *srv, bindings []binding, rows []qrow) {
 			var rules []string
 			for _, tg := range idxTags {
 				rn := b.name + "_" + tg
-				must(sv.indexRule(group, rn, []string{tg}, b.typ))
+				typ := b.typ
+				if m, ok := mixedRules[b.name]; ok {
+					typ = m[tg]
+				}
+				if typ == databasev1.IndexRule_TYPE_UNSPECIFIED {
+					continue
+				}
+				must(sv.indexRule(group, rn, []string{tg}, typ))
 				rules = append(rules, rn)
 			}
 			must(sv.bind(group, b.name+"_binding", rules, cat, b.name))
@@ -198,7 +213,22 @@ func TestVerifC08(t *testing.T) {
 		fmt.Sscan(v, &nRows)
 	}
 	rows := genDataset(r0, nRows, 8, 3, base, &uid, true)
+	// one more series with a high-cardinality string tag: more than 256 distinct values in one block (plain instead of
+	// dictionary encoding) once the small parts holding its rows have been merged
+	var hcRows []qrow
+	for i := 0; i < 640; i++ {
+		uid++
+		hcRows = append(hcRows, qrow{id: "hc0", uid: uid, svc: fmt.Sprintf("u-%03d", i), n: int64(i % 7), dur: int64(5000 + i), labels: []string{"hc"}, codes: []int64{int64(i)},
+			ts: base.Add(2*time.Hour + time.Duration(i)*time.Second), v: int64(i)})
+	}
 	setupQueryWorld(t, sv, c08Bindings, rows)
+	// written as 16 small batches, each flushed to a part of its own (the server flushes 200 ms after a write): the
+	// merger then folds runs of small parts together, and a merged block of this series holds 320 distinct values
+	for k := 0; k < 16; k++ {
+		time.Sleep(350 * time.Millisecond)
+		writeRows(t, sv, c08Bindings, hcRows[k*40:(k+1)*40])
+	}
+	rows = append(rows, hcRows...)
 	nTrees := verifh.Pick(70, 1200)
 	noted := map[string]bool{}
 	sinceRenewal := map[string]int{}
@@ -211,9 +241,22 @@ func TestVerifC08(t *testing.T) {
 			writeRows(t, sv, c08Bindings, more)
 			rows = append(rows, more...)
 		}
-		for i := 0; i < nTrees; i++ {
+		for i := 0; i < nTrees+24; i++ {
 			r := verifh.Rand("c08tree/"+lname, i)
 			tr := genCriteria(r, r.Intn(4))
+			if i >= nTrees { // probes of the high-cardinality series: values that exist exactly once
+				q, q2 := hcRows[r.Intn(len(hcRows))], hcRows[r.Intn(len(hcRows))]
+				eq := &tree{isLeaf: true, c: &cond{tag: "svc", op: modelv1.Condition_BINARY_OP_EQ, str: q.svc, kind: "str"}}
+				switch i % 3 {
+				case 0:
+					tr = eq
+				case 1:
+					tr = &tree{isLeaf: true, c: &cond{tag: "svc", op: modelv1.Condition_BINARY_OP_IN, strs: []string{q.svc, "absent", q2.svc}, kind: "strs"}}
+				default:
+					tr = &tree{l: eq, r: &tree{isLeaf: true, c: &cond{tag: "dur", op: modelv1.Condition_BINARY_OP_EQ, i: q2.dur, kind: "int"}}}
+				}
+				s.Count("c08.high_cardinality_probes", 1)
+			}
 			// time window: everything, or edges that coincide with stored timestamps
 			lo, hi := base.Add(-time.Hour), base.Add(5*24*time.Hour)
 			if r.Intn(3) == 0 {
